@@ -456,7 +456,8 @@ class CFG:
         return False
 
     def stable_edges(self):
-        """edge node id -> (key text, outcome bool) for tests over stable values."""
+        """edge node id -> constraint for tests over stable values.
+        constraint = ('bool', key, outcome) | ('set', knob key, member: bool, values)"""
         if getattr(self, "_sedges", None) is not None:
             return self._sedges
         stable, stored = self._stable_names()
@@ -467,19 +468,100 @@ class CFG:
                 neg = False
                 while isinstance(t, ast.UnaryOp) and isinstance(t.op, ast.Not):
                     t, neg = t.operand, not neg
-                if self._stable_expr(t, stable, stored):
-                    out[n.id] = (ast.dump(t), (n.label == "true") != neg)
+                if not self._stable_expr(t, stable, stored):
+                    continue
+                outcome = (n.label == "true") != neg
+                c = None
+                if isinstance(t, ast.Compare) and len(t.ops) == 1:
+                    op, rhs = t.ops[0], t.comparators[0]
+                    vals = None
+                    if isinstance(op, (ast.Eq, ast.NotEq)) and isinstance(rhs, ast.Constant):
+                        vals = frozenset([repr(rhs.value)])
+                    elif isinstance(op, (ast.In, ast.NotIn)) and isinstance(rhs, (ast.Tuple, ast.List, ast.Set)) \
+                            and all(isinstance(e, ast.Constant) for e in rhs.elts):
+                        vals = frozenset(repr(e.value) for e in rhs.elts)
+                    if vals is not None and not isinstance(t.left, ast.Constant):
+                        member = outcome if isinstance(op, (ast.Eq, ast.In)) else not outcome
+                        c = ("set", ast.dump(t.left), member, vals)
+                if c is None:
+                    c = ("bool", ast.dump(t), outcome)
+                out[n.id] = c
         self._sedges = out
         return out
 
-    def consistent_path(self, a, b, avoiding=(), seed_from=None):
-        """Path a ->+ b avoiding nodes, on which every stable test keeps one outcome.
+    @staticmethod
+    def _apply(st, c):
+        """state dict -> new dict or None if contradictory"""
+        d = dict(st)
+        if c[0] == "bool":
+            _, k, o = c
+            if k in d and d[k] != o:
+                return None
+            d[k] = o
+            return d
+        _, k, member, vals = c
+        cur = d.get(k)          # ('in', S) or ('notin', S)
+        if member:
+            if cur is None:
+                new = ("in", vals)
+            elif cur[0] == "in":
+                new = ("in", cur[1] & vals)
+            else:
+                new = ("in", vals - cur[1])
+            if not new[1]:
+                return None
+        else:
+            if cur is None:
+                new = ("notin", vals)
+            elif cur[0] == "in":
+                new = ("in", cur[1] - vals)
+                if not new[1]:
+                    return None
+            else:
+                new = ("notin", cur[1] | vals)
+        d[k] = new
+        return d
+
+    def nonzero_trip_headers(self, consts=None):
+        """for-loops over range(K) with K a positive literal or module constant"""
+        out = {}
+        consts = consts or {}
+        for n in self.nodes:
+            if n.kind == "for" and isinstance(n.ast.iter, ast.Call) \
+                    and ast.unparse(n.ast.iter.func) == "range" and len(n.ast.iter.args) == 1:
+                a = n.ast.iter.args[0]
+                v = None
+                if isinstance(a, ast.Constant):
+                    v = a.value
+                elif isinstance(a, ast.Name) and a.id in consts:
+                    v = consts[a.id]
+                if isinstance(v, int) and v > 0:
+                    it, ex = self.loop_edges(n.id)
+                    out[n.id] = (it, ex)
+        return out
+
+    def consistent_path(self, a, b, avoiding=(), seed_from=None, init=None, consts=None):
+        """Path a ->+ b avoiding nodes, on which every stable test keeps one outcome
+        (value-set reasoning for `K == c`, `K in (..)` tests on one stable K).
         The facts dominating `seed_from` (default a) are assumed at the start."""
         se = self.stable_edges()
         st0 = {}
-        for i in self.dominators().get(a if seed_from is None else seed_from, ()):
+        for i in sorted(self.dominators().get(a if seed_from is None else seed_from, ())):
             if i in se:
-                st0[se[i][0]] = se[i][1]
+                nxt = self._apply(st0, se[i])
+                if nxt is not None:
+                    st0 = nxt
+        for c in (init or ()):
+            nxt = self._apply(st0, c)
+            if nxt is not None:
+                st0 = nxt
+        nz = self.nonzero_trip_headers(consts)
+        iter_edges = {it: h for h, (it, ex) in nz.items()}
+        ex_edges = {ex: h for h, (it, ex) in nz.items()}
+        # loops already entered at the start node count as entered
+        for h in nz:
+            if h in self.nodes[a].loops:
+                st0[("loop", h)] = True
         av = set(avoiding)
         start = frozenset(st0.items())
         seen = set()
@@ -488,12 +570,20 @@ class CFG:
             x, st = stack.pop()
             if x in av:
                 continue
-            if x in se:
-                k, o = se[x]
+            if x in iter_edges:
                 d = dict(st)
-                if k in d and d[k] != o:
+                d[("loop", iter_edges[x])] = True
+                st = frozenset(d.items())
+            elif x in ex_edges:
+                if not dict(st).get(("loop", ex_edges[x])):
+                    continue      # zero-trip exit of a loop that runs at least once
+                d = dict(st)
+                d.pop(("loop", ex_edges[x]), None)
+                st = frozenset(d.items())
+            if x in se:
+                d = self._apply(dict(st), se[x])
+                if d is None:
                     continue
-                d[k] = o
                 st = frozenset(d.items())
             if (x, st) in seen:
                 continue
